@@ -24,6 +24,11 @@ pub fn pat(side: usize, k: usize) -> u8 {
     ((k * 131 + side * 7 + (k >> 8)) & 0xff) as u8
 }
 
+thread_local! {
+    /// Some([issA, issB]) = print sequence numbers relative to the ISNs (C12 paired runs)
+    static NORM: std::cell::Cell<Option<[u32; 2]>> = std::cell::Cell::new(None);
+}
+
 enum End {
     Closed,
     Listen,
@@ -94,7 +99,60 @@ fn seg_str(s: &Segment) -> String {
     )
 }
 
-fn snap_str(e: &End, del: (usize, u64)) -> String {
+/// segment sent by side `from`, with seq/ack relative to the ISNs when normalising
+fn seg_str_from(s: &Segment, from: usize) -> String {
+    match NORM.with(|n| n.get()) {
+        None => seg_str(s),
+        Some(iss) => {
+            let t = s.text.to_vec();
+            let ack = if s.header.ctl.ack() { s.header.ack.wrapping_sub(iss[1 - from]) } else { s.header.ack };
+            format!(
+                "<{} {} {} {} {} {} {} {} {}>",
+                s.header.src_port, s.header.dst_port, s.header.seq.wrapping_sub(iss[from]), ack, ctl_bits(s.header.ctl),
+                s.header.wnd, s.header.urg, t.len(), thash(&t)
+            )
+        }
+    }
+}
+
+fn snap_str(side: usize, e: &End, del: (usize, u64)) -> String {
+    if let (Some(iss), End::Live(t)) = (NORM.with(|n| n.get()), e) {
+        let s = t.verif_snapshot();
+        let own = iss[side];
+        let peer = iss[1 - side];
+        let unsync = matches!(s.state, State::SynSent);
+        let p = |v: u32| if unsync { "x".to_string() } else { v.wrapping_sub(peer).to_string() };
+        // SND.WL1/WL2 are internal bookkeeping whose initial values are raw header fields of the
+        // SYN; their effect is observable only through SND.WND, which is compared
+        let wl2 = "x".to_string();
+        let mut o = String::new();
+        let _ = write!(
+            o,
+            "{} {} {} {} {} {} {} {} {} {} {} {} {} {} [",
+            st_code(s.state), s.listen_initiated as u8, s.fin_pending as u8, s.snd_una.wrapping_sub(own),
+            s.snd_nxt.wrapping_sub(own), s.snd_wnd, "x", wl2, 0, p(s.rcv_irs), p(s.rcv_nxt), s.rcv_wnd,
+            s.out_text_len, s.oneshot_len
+        );
+        for (q, l, sy, f, n) in &s.retransmit {
+            let _ = write!(o, "{}:{}:{}{}{},", q.wrapping_sub(own), l, *sy as u8, *f as u8, *n as u8);
+        }
+        o.push_str("] [");
+        let mut ins: Vec<(u32, usize)> = s.in_segments.iter().map(|(q, l)| (q.wrapping_sub(peer), *l)).collect();
+        ins.sort();
+        for (q, l) in &ins {
+            let _ = write!(o, "{}:{},", q, l);
+        }
+        let _ = write!(
+            o,
+            "] {} {} {} {} {}",
+            s.in_text_len,
+            s.rto_nanos / 1_000_000,
+            s.time_wait_nanos.map(|x| (x / 1_000_000) as i64).unwrap_or(-1),
+            del.0,
+            del.1
+        );
+        return o;
+    }
     match e {
         End::Closed => "closed".into(),
         End::Listen => "listen".into(),
@@ -212,7 +270,7 @@ impl Sys {
                     None => out.push_str("none"),
                     Some(ListenResult::Response(h)) => {
                         let s = Segment::new(h, Message::default());
-                        let _ = write!(out, "resp{}", seg_str(&s));
+                        let _ = write!(out, "resp{}", if NORM.with(|n| n.get()).is_some() { String::new() } else { seg_str(&s) });
                         self.net[d_back].push(s);
                     }
                     Some(ListenResult::Tcb(t)) => {
@@ -233,7 +291,7 @@ impl Sys {
                     None => out.push_str("none"),
                     Some(h) => {
                         let s = Segment::new(h, Message::default());
-                        let _ = write!(out, "resp{}", seg_str(&s));
+                        let _ = write!(out, "resp{}", if NORM.with(|n| n.get()).is_some() { String::new() } else { seg_str(&s) });
                         self.net[d_back].push(s);
                     }
                 }
@@ -359,7 +417,7 @@ impl Sys {
             let segs = t.segments();
             let after = t.verif_snapshot();
             for g in &segs {
-                out.push_str(&seg_str(g));
+                out.push_str(&seg_str_from(g, s));
                 if g.header.ctl.rst() {
                     self.rst_seen = true;
                 }
@@ -401,7 +459,7 @@ impl Sys {
                 } else {
                     out.push('-');
                 }
-                let _ = write!(out, "|{}", snap_str(&self.end[s], (self.del[s].len(), self.del_hash[s])));
+                let _ = write!(out, "|{}", snap_str(s, &self.end[s], (self.del[s].len(), self.del_hash[s])));
             }
             "S" => {
                 let s = p(1) as usize;
@@ -418,7 +476,7 @@ impl Sys {
                 } else {
                     out.push('-');
                 }
-                let _ = write!(out, "|{}", snap_str(&self.end[s], (self.del[s].len(), self.del_hash[s])));
+                let _ = write!(out, "|{}", snap_str(s, &self.end[s], (self.del[s].len(), self.del_hash[s])));
             }
             "R" => {
                 let s = p(1) as usize;
@@ -432,7 +490,7 @@ impl Sys {
                 } else {
                     out.push('-');
                 }
-                let _ = write!(out, "|{}", snap_str(&self.end[s], (self.del[s].len(), self.del_hash[s])));
+                let _ = write!(out, "|{}", snap_str(s, &self.end[s], (self.del[s].len(), self.del_hash[s])));
             }
             "C" => {
                 let s = p(1) as usize;
@@ -454,7 +512,7 @@ impl Sys {
                 } else {
                     out.push('-');
                 }
-                let _ = write!(out, "|{}", snap_str(&self.end[s], (self.del[s].len(), self.del_hash[s])));
+                let _ = write!(out, "|{}", snap_str(s, &self.end[s], (self.del[s].len(), self.del_hash[s])));
             }
             "T" => {
                 let s = p(1) as usize;
@@ -486,12 +544,12 @@ impl Sys {
                         self.expired_before_tail = true;
                     }
                 }
-                let _ = write!(out, "|{}", snap_str(&self.end[s], (self.del[s].len(), self.del_hash[s])));
+                let _ = write!(out, "|{}", snap_str(s, &self.end[s], (self.del[s].len(), self.del_hash[s])));
             }
             "E" => {
                 let s = p(1) as usize;
                 self.emit(s, out);
-                let _ = write!(out, "|{}", snap_str(&self.end[s], (self.del[s].len(), self.del_hash[s])));
+                let _ = write!(out, "|{}", snap_str(s, &self.end[s], (self.del[s].len(), self.del_hash[s])));
             }
             "D" => {
                 let d = p(1) as usize;
@@ -502,7 +560,7 @@ impl Sys {
                     let seg = self.net[d].remove(i);
                     self.arrive(1 - d, seg, out);
                 }
-                let _ = write!(out, "|{}", snap_str(&self.end[1 - d], (self.del[1 - d].len(), self.del_hash[1 - d])));
+                let _ = write!(out, "|{}", snap_str(1 - d, &self.end[1 - d], (self.del[1 - d].len(), self.del_hash[1 - d])));
             }
             "X" => {
                 let d = p(1) as usize;
@@ -543,7 +601,7 @@ impl Sys {
                 let text: Vec<u8> = (0..len).map(|k| (k * 13 + 5) as u8).collect();
                 let seg = Segment::new(h, Message::new(text));
                 self.arrive(1 - d, seg, out);
-                let _ = write!(out, "|{}", snap_str(&self.end[1 - d], (self.del[1 - d].len(), self.del_hash[1 - d])));
+                let _ = write!(out, "|{}", snap_str(1 - d, &self.end[1 - d], (self.del[1 - d].len(), self.del_hash[1 - d])));
             }
             "F" => {
                 // k fair loss-free rounds
@@ -570,8 +628,8 @@ impl Sys {
                 let _ = write!(
                     out,
                     "{}|{}|{} {}",
-                    snap_str(&self.end[0], (self.del[0].len(), self.del_hash[0])),
-                    snap_str(&self.end[1], (self.del[1].len(), self.del_hash[1])),
+                    snap_str(0, &self.end[0], (self.del[0].len(), self.del_hash[0])),
+                    snap_str(1, &self.end[1], (self.del[1].len(), self.del_hash[1])),
                     self.net[0].len(),
                     self.net[1].len()
                 );
@@ -666,15 +724,29 @@ fn fnv(s: &str) -> u32 {
     h
 }
 
+fn flag(f: &str) -> bool {
+    std::env::args().any(|a| a == f)
+}
+
+fn heavy() -> bool {
+    std::env::args().any(|a| a == "--heavy")
+}
+
 fn verbose() -> bool {
     std::env::args().any(|a| a == "--verbose")
 }
 
 fn run_case(case: &str, stop_on_panic: bool) -> (String, Vec<String>, bool) {
-    let verbose = verbose();
+    run_case_with(case, stop_on_panic, [0, 0], false, verbose())
+}
+
+/// shift: added to the two ISNs; norm: print sequence numbers relative to the ISNs
+fn run_case_with(case: &str, _stop_on_panic: bool, shift: [u32; 2], norm: bool, verbose: bool) -> (String, Vec<String>, bool) {
     let (head, body) = case.split_once('|').expect("case format");
     let h: Vec<u64> = head.split_whitespace().map(|x| x.parse().unwrap()).collect();
-    let mut sys = Sys::new(h[0], [h[1] as u32, h[2] as u32], [h[3] as u16, h[4] as u16]);
+    let iss = [(h[1] as u32).wrapping_add(shift[0]), (h[2] as u32).wrapping_add(shift[1])];
+    let mut sys = Sys::new(h[0], iss, [h[3] as u16, h[4] as u16]);
+    NORM.with(|n| n.set(if norm { Some(iss) } else { None }));
     let mut out = String::new();
     let mut panicked = false;
     for lab in body.split(';') {
@@ -697,12 +769,15 @@ fn run_case(case: &str, stop_on_panic: bool) -> (String, Vec<String>, bool) {
                 out.push_str("PANICKED;");
                 sys.violations.push(format!("C17/C01 panic at label `{}`: {}", lab.trim(), panic_message(e)));
                 panicked = true;
-                if stop_on_panic {
-                    break;
-                }
                 break;
             }
         }
+    }
+    NORM.with(|n| n.set(None));
+    if norm && sys.reached_closed {
+        // replies of a never-opened endpoint carry the literal sequence number 0 (3.10.7.1):
+        // outside "a connection", excluded from the ISN-independence comparison
+        out.push_str("##reached-closed");
     }
     (out, sys.violations, panicked)
 }
@@ -733,7 +808,7 @@ fn gen_mtu(rng: &mut Rng) -> u16 {
 /// Generation executes the labels on the real implementation so that forged
 /// segments can be placed relative to the live sequence variables.
 fn gen_case(rng: &mut Rng, idx: usize) -> String {
-    let hostile = idx % 3 == 2;
+    let hostile = if flag("--hostile") { true } else if flag("--conformant") || flag("--shift") { false } else { idx % 3 == 2 };
     let mode = if rng.coin(1, 5) { 1 } else { 0 };
     let iss = [gen_iss(rng), gen_iss(rng)];
     let mtu = [gen_mtu(rng), gen_mtu(rng)];
@@ -773,11 +848,18 @@ fn gen_case(rng: &mut Rng, idx: usize) -> String {
             format!("T {} {}", s, ms)
         } else if r < 70 {
             let mss = (sys.mtu[s as usize] - 50) as u64;
-            let nbytes = if big_writes && rng.coin(1, 3) {
+            let mut nbytes = if big_writes && rng.coin(1, 3) {
                 *rng.pick(&[65535u64, 65536, 70000, 131072, 200000])
             } else {
                 *rng.pick(&[0u64, 1, 2, 10, 49, 50, 51, 100, 1000, mss - 1, mss, mss + 1, 2 * mss, 3000])
             };
+            if !heavy() {
+                // the extracted model is ~100x slower than the Rust code: bound the number of
+                // segments a case can produce (the --heavy stream, oracle only, has no such bound)
+                let budget = 60 * mss;
+                let used = sys.sub[s as usize].len() as u64;
+                nbytes = nbytes.min(budget.saturating_sub(used));
+            }
             format!("S {} {}", s, nbytes)
         } else if r < 80 {
             format!("R {}", s)
@@ -844,6 +926,18 @@ fn gen_case(rng: &mut Rng, idx: usize) -> String {
     } else if alive {
         let _ = push(&mut sys, &mut labels, "F 5".into());
     }
+    if flag("--shift") {
+        let mut d = [0u32; 2];
+        for k in 0..2 {
+            d[k] = match rng.below(5) {
+                0 => 0u32.wrapping_sub(iss[k]).wrapping_sub(rng.below(70000) as u32), // lands just below the wrap point
+                1 => 0x8000_0000u32.wrapping_sub(iss[k]).wrapping_sub(rng.below(70000) as u32), // just below 2^31
+                2 => 0,
+                _ => rng.u32(),
+            };
+        }
+        return format!("{} {} {} {} {} {} {} | {}", mode, iss[0], iss[1], mtu[0], mtu[1], d[0], d[1], labels.join(" ; "));
+    }
     format!("{} {} {} {} {} | {}", mode, iss[0], iss[1], mtu[0], mtu[1], labels.join(" ; "))
 }
 
@@ -865,6 +959,35 @@ impl Family for TcbFam {
         }
         if case.starts_with('1') {
             stat("simultaneous_open");
+        }
+        let mut viol = viol;
+        {
+            let head = case.split_once('|').unwrap().0;
+            let h: Vec<u64> = head.split_whitespace().map(|x| x.parse().unwrap()).collect();
+            if h.len() >= 7 && !case.contains(" I ") {
+                // C12: the same schedule with both ISNs shifted must give the same behaviour
+                // once sequence numbers are taken relative to the ISNs
+                let (base, _, _) = run_case_with(case, true, [0, 0], true, true);
+                let (shifted, v2, _) = run_case_with(case, true, [h[5] as u32, h[6] as u32], true, true);
+                stat("c12_shift_pairs");
+                if (h[1] as u32).checked_add(h[5] as u32).is_none() || (h[2] as u32).checked_add(h[6] as u32).is_none() {
+                    stat("c12_shift_wraps_isn");
+                }
+                if base.ends_with("##reached-closed") || shifted.ends_with("##reached-closed") {
+                    stat("c12_pair_skipped_closed_endpoint_reply");
+                } else if base != shifted {
+                    let a: Vec<&str> = base.split(';').collect();
+                    let b: Vec<&str> = shifted.split(';').collect();
+                    let k = (0..a.len().min(b.len())).find(|&i| a[i] != b[i]).unwrap_or(a.len().min(b.len()));
+                    viol.push(format!(
+                        "C12 behaviour depends on the ISNs (shift {} {}): label #{} base `{}` shifted `{}`",
+                        h[5], h[6], k, a.get(k).unwrap_or(&""), b.get(k).unwrap_or(&"")
+                    ));
+                }
+                for v in v2 {
+                    viol.push(format!("(shifted run) {}", v));
+                }
+            }
         }
         let oracle = if viol.is_empty() {
             Oracle::Ok
